@@ -1,4 +1,5 @@
 import IdpyVerif.Model.Registration
+import IdpyVerif.Gen.Reg
 namespace Idpy.Driver.Registration
 open Idpy Idpy.Registration
 
@@ -20,6 +21,11 @@ def stepLine (s : St) (args : List String) : St × String :=
     | some l =>
       let (s', o) := step s (.register { native := native = "1", codeOnly := codeOnly = "1", uris := l, otherOk := otherOk = "1" })
       (s', match o with | .registered i c t => s!"registered {i} {c} {t}" | _ => "error")
+  | ["filter", table, k, v, ann] =>
+    -- table: the generated register2preferred ("gen") ; ann: "-" (the metadata has no such name) or a comma-separated list ("" = empty)
+    let t := if table = "gen" then Gen.register2preferred else []
+    let a : String → Option (List String) := fun _ => if ann = "-" then none else some (if ann = "" then [] else ann.splitOn ",")
+    (s, match filterParam t a k v with | some x => "keep " ++ x | none => "drop")
   | ["read", t, c] =>
     match t.toNat?, c.toNat? with
     | some tt, some cc => let (s', o) := step s (.read tt cc); (s', match o with | .read _ => "read" | _ => "refused")
